@@ -277,7 +277,12 @@ func genPubStress(g *genCtx) {
 	for t := 0; t < rounds; t++ {
 		g.newCase("kind=stress")
 		r := g.rng
-		g.op("stress pubs=%d subs=%d msgs=%d closers=%d seed=%d", r.rangeIn(1, 4), r.rangeIn(1, 5), r.rangeIn(10, 120), r.intn(3), r.intn(1<<30))
+		pcl := 0
+		if t%3 == 1 {
+			pcl = 1 + t%2 // Publication.Close from 1-2 goroutines, racing with Subscriber.Close and Publish
+		}
+		// late: subscribers (with a filter) that register while the publishers run; zero: the first `zero` subscribers do not wait (timeout 0)
+		g.op("stress pubs=%d subs=%d msgs=%d closers=%d seed=%d pclosers=%d late=%d zero=%d", r.rangeIn(1, 4), r.rangeIn(1, 5), r.rangeIn(10, 120), r.intn(3), r.intn(1<<30), pcl, (t%4)/2*(1+t%3), (t%5)/3)
 	}
 }
 
@@ -295,11 +300,18 @@ func execPubStressCase(x *execCtx) {
 			fmt.Fprintf(real, "%s => bad-op\n", line)
 			continue
 		}
-		fmt.Fprintf(real, "%s => %s\n", line, pubStress(atoi(f["pubs"]), atoi(f["subs"]), atoi(f["msgs"]), atoi(f["closers"]), uint64(atoi(f["seed"]))))
+		fmt.Fprintf(real, "%s => %s\n", line, pubStress(atoi(f["pubs"]), atoi(f["subs"]), atoi(f["msgs"]), atoi(f["closers"]), uint64(atoi(f["seed"])), atoiOr(f["pclosers"], 0), atoiOr(f["late"], 0), atoiOr(f["zero"], 0)))
 	}
 }
 
-func pubStress(P, S, M, closers int, seed uint64) string {
+func atoiOr(s string, d int) int {
+	if s == "" {
+		return d
+	}
+	return atoi(s)
+}
+
+func pubStress(P, S, M, closers int, seed uint64, pclosers, late, zero int) string {
 	p := publisher.NewPublication[int]()
 	type subRec struct {
 		s       *publisher.Subscriber[int]
@@ -316,10 +328,17 @@ func pubStress(P, S, M, closers int, seed uint64) string {
 		sr := &subRec{even: rg.chance(1, 3)}
 		buf := rg.intn(4)
 		subs[i] = sr
+		noWait := i < zero
+		if noWait {
+			sr.closedA = true // a subscriber that does not wait is not owed every message
+		}
 		wgS.Add(1)
 		go func() {
 			defer wgS.Done()
 			opts := []publisher.SubscriberOption[int]{publisher.WithTimeout[int](20 * time.Second)}
+			if noWait {
+				opts = []publisher.SubscriberOption[int]{publisher.WithTimeout[int](0)}
+			}
 			if sr.even {
 				opts = append(opts, publisher.WithFilter(func(v int) bool { return v%2 == 0 }))
 			}
@@ -331,6 +350,12 @@ func pubStress(P, S, M, closers int, seed uint64) string {
 	wgS.Wait()
 	for c := 0; c < closers && c < S; c++ {
 		subs[c].closedA = true
+	}
+	if pclosers > 0 {
+		// the publication itself is closed while publishers run: nobody is owed every message
+		for _, sr := range subs {
+			sr.closedA = true
+		}
 	}
 	var wgR, wgP sync.WaitGroup
 	for _, sr := range subs {
@@ -351,6 +376,39 @@ func pubStress(P, S, M, closers int, seed uint64) string {
 			}
 		}(pi)
 	}
+	// late subscribers register while the publishers run; every one has the even-only filter and is judged on
+	// what it receives (never an odd value, never a duplicate, never a foreign value), not on completeness
+	lateRecs := make([]*subRec, late)
+	var lateMu sync.Mutex
+	var wgLate sync.WaitGroup // every late Subscribe has returned (so that the final Close reaches it)
+	for li := 0; li < late; li++ {
+		nap := time.Duration(rg.intn(400)) * time.Microsecond
+		buf := rg.intn(4)
+		many := rg.chance(1, 2)
+		wgR.Add(1)
+		wgLate.Add(1)
+		go func(li int) {
+			defer wgR.Done()
+			time.Sleep(nap)
+			opts := []publisher.SubscriberOption[int]{}
+			if many {
+				// many options before the filter: the window in which a half-configured subscriber would be visible
+				for k := 0; k < 200; k++ {
+					opts = append(opts, publisher.WithTimeout[int](20*time.Second))
+				}
+			}
+			opts = append(opts, publisher.WithFilter(func(v int) bool { return v%2 == 0 }), publisher.WithTimeout[int](20*time.Second))
+			sr := &subRec{even: true, closedA: true}
+			sr.s = p.Subscribe(buf, opts...)
+			lateMu.Lock()
+			lateRecs[li] = sr
+			lateMu.Unlock()
+			wgLate.Done()
+			for v := range sr.s.Receive() {
+				sr.got = append(sr.got, v)
+			}
+		}(li)
+	}
 	// closers race with the publishers; two goroutines close the same subscriber
 	var wgC sync.WaitGroup
 	for c := 0; c < closers && c < S; c++ {
@@ -364,14 +422,30 @@ func pubStress(P, S, M, closers int, seed uint64) string {
 			}(c)
 		}
 	}
+	// Publication.Close from several goroutines, racing with the subscriber closers above and with Publish
+	for k := 0; k < pclosers; k++ {
+		wgC.Add(1)
+		nap := time.Duration(rg.intn(300)) * time.Microsecond
+		go func() {
+			defer wgC.Done()
+			time.Sleep(nap)
+			p.Close()
+		}()
+	}
 	wgP.Wait()
 	wgC.Wait()
+	wgLate.Wait()
 	// every delivery to a live, receiving subscriber completes promptly: wait for quiescence, then close everything (twice)
 	settle("toolchest/publisher.", func() int64 { return 0 }, 10*time.Second)
 	p.Close()
 	p.Close()
 	wgR.Wait()
 	dup, foreign, rejected, missing := 0, 0, 0, 0
+	for _, sr := range lateRecs {
+		if sr != nil {
+			subs = append(subs, sr)
+		}
+	}
 	for _, sr := range subs {
 		seen := map[int]int{}
 		for _, v := range sr.got {
